@@ -299,6 +299,25 @@ func TestC09_Calls(t *testing.T) {
 				g.Journal(name)
 				ok, err := crypto.VerifyBLSSignatureManyMessages(pkList(g, k, "pks", n), k.hostileSig(g, "sig"), msgs, hs)
 				invalid = !ok || err != nil
+				// the same call with well-formed elements and only the list lengths off by one
+				np, nm, nh := g.Int("lenKeys", 0, 3), g.Int("lenMsgs", 0, 3), g.Int("lenHashers", 0, 3)
+				pks2 := make([]crypto.PublicKey, np)
+				for i := range pks2 {
+					pks2[i] = k.bls.PublicKey()
+				}
+				msgs2 := make([][]byte, nm)
+				for i := range msgs2 {
+					msgs2[i] = []byte{byte(i)}
+				}
+				hs2 := make([]hash.Hasher, nh)
+				for i := range hs2 {
+					hs2[i] = crypto.NewExpandMsgXOFKMAC128("t")
+				}
+				g.Journal(fmt.Sprintf("%s(%d keys, %d messages, %d hashers)", name, np, nm, nh))
+				ok2, err2 := crypto.VerifyBLSSignatureManyMessages(pks2, k.sigB, msgs2, hs2)
+				if np > 0 && (np != nm || nh != nm) && (ok2 || !crypto.IsInvalidInputsError(err2)) {
+					g.Fatalf("VerifyBLSSignatureManyMessages(%d keys, %d messages, %d hashers) = (%v, %v): expected the invalid-inputs error", np, nm, nh, ok2, err2)
+				}
 			case 14:
 				name = "BatchVerifyBLSSignaturesOneMessage"
 				g.Journal(name)
@@ -624,4 +643,29 @@ func c09DKG(g *gen.G) {
 			_ = inst.Threshold()
 		}
 	}
+}
+
+// TestC09_DKGNetwork: whole networks with any number of Byzantine participants (no agreement is
+// expected beyond the assumptions of C07/C08): the only oracle is that no handler panics or kills the worker.
+func TestC09_DKGNetwork(t *testing.T) {
+	gen.Run(t, "C09", func(g *gen.G) {
+		proto := sim.Protocol(g.Int("protocol", 0, 2))
+		n := g.Int("n", 2, 5)
+		th := g.Int("t", 1, n-1)
+		nbyz := g.Int("byzantine", 0, n-1) // beyond t: outside the DKG properties' assumptions, inside C09's
+		byz := g.Perm("byzSet", n)[:nbyz]
+		dealer := g.Pick("dealer", n)
+		if nbyz > 0 && proto != sim.JointFeldman && g.Chance("byzDealer", 2, 3) {
+			dealer = byz[0]
+		}
+		g.Journal(fmt.Sprintf("DKG network %v n=%d t=%d dealer=%d byzantine=%v", proto, n, th, dealer, byz))
+		s := sim.New(g, proto, n, th, dealer, byz, mustSwapped(g))
+		s.Run()
+		for c := range s.Classes {
+			g.Class(c)
+		}
+		if nbyz > 0 {
+			g.NonTrivial()
+		}
+	})
 }
